@@ -97,6 +97,12 @@ def projects(draw: Any, cycles: bool = False, star_consumers: bool = False) -> D
             consumers[0]['uses'].insert(0, {'obj': d['name'], 'from': m, 'how': draw(st.sampled_from(['modalias', 'dotted', 'pkgalias'])), 'as': 'base', 'rebind': False, 'cvar': True})
     docformat = draw(st.integers(0, 6)) == 0   # the package sets __docformat__, class docstrings declare attributes in fields of that format
     extra = {'docformat': docformat, 'cycle': cycles and draw(st.booleans()), 'star_consumer': star_consumers and draw(st.booleans()), 'second_root': draw(st.integers(0, 3)) == 0}
+    # (the exports may have been changed since the restrictions above were applied: apply them to what is returned)
+    for e in exports:
+        if any(x['form'] == 'star' and x['from'] == e['from'] for x in exports):
+            e.pop('clash_id', None)
+        if any(x['form'] == 'star' and x['from'] == e['from'] and x['via'] == e['via'] for x in exports):
+            e.pop('fallback', None)
     return {'impl': impl, 'exports': exports, 'consumers': consumers, 'extra': extra}
 
 
